@@ -367,6 +367,9 @@ type txCounter struct {
 	memo map[*ssa.Function]int
 	busy map[*ssa.Function]bool
 	any  bool // count read transactions too
+	// context of the function being evaluated: its Begin-flag parameter is known false
+	flagFalse map[*ssa.Function]bool
+	memoF     map[*ssa.Function]int
 }
 
 func (t *txCounter) callWeight(call ssa.CallInstruction) int {
@@ -376,6 +379,9 @@ func (t *txCounter) callWeight(call ssa.CallInstruction) int {
 	}
 	switch c.beginKind(call) {
 	case "w":
+		if fp := c.beginFlag(call); fp != nil && t.flagFalse[call.Parent()] && !t.any {
+			return 0 // Begin(update) in a helper called with update = false
+		}
 		return 1
 	case "r":
 		if t.any {
@@ -385,6 +391,21 @@ func (t *txCounter) callWeight(call ssa.CallInstruction) int {
 	}
 	w := 0
 	cc := call.Common()
+	// a tx-scope helper called with a constant false flag opens a read transaction
+	if g := staticCallee(call); g != nil && !t.any {
+		g = c.declared(g)
+		if fi := c.flagParamIndex(g); fi >= 0 && fi < len(cc.Args) {
+			if bv, ok := constBool(cc.Args[fi]); ok && !bv {
+				w = t.maxFlagFalse(g)
+				for _, a := range cc.Args {
+					if f := closureFn(a); f != nil && c.IsLib(f) {
+						w += t.max(f)
+					}
+				}
+				return w
+			}
+		}
+	}
 	if cc.IsInvoke() {
 		if !c.methodIsStoreIface(cc.Method) {
 			for _, f := range c.libImpls(cc.Method) {
@@ -516,6 +537,15 @@ func ruleTX3(c *Ctx) []Ob {
 			}
 		}
 	}
+	// a transaction body handed to a tx-scope helper opens no transaction of its own
+	for _, tb := range c.txBodies() {
+		key := c.fname(tb.Fn) + "/no-nested-transaction"
+		if c.eff(tb.Fn)&(EffBeginR|EffBeginW) != 0 {
+			o.add(VIOLATED, key, relPath(c, tb.Site.Pos()), "the function run inside %s's transaction opens another transaction (self-deadlock on bbolt, and its effects are not part of the outer transaction)", c.fname(tb.Helper))
+		} else {
+			o.add(OK, key, relPath(c, tb.Site.Pos()), "the transaction body opens no transaction of its own")
+		}
+	}
 	// no transaction is opened while another one is held by the same function
 	for _, op := range c.openers() {
 		if op.Transfer {
@@ -555,6 +585,98 @@ func ruleTX3(c *Ctx) []Ob {
 var readOps = []string{"FindAll", "FindFirst", "FindById", "ForEach", "IterateDocs", "Count", "Exists",
 	"HasCollection", "HasIndex", "ListIndexes", "ListCollections", "ExportCollection"}
 
+type txEvent struct {
+	fn   *ssa.Function
+	call ssa.CallInstruction
+	kind string // r | w | commit
+}
+
+// collectTx walks the library call structure from fn under an environment of
+// known boolean parameters, recording transaction opens (with the flag
+// resolved where it is a bound parameter) and commits in live code only.
+func (c *Ctx) collectTx(fn *ssa.Function, env map[*ssa.Parameter]bool, seen map[string]bool, out *[]txEvent) {
+	key := c.fname(fn)
+	for p, v := range env {
+		if p.Parent() == fn {
+			key += fmt.Sprintf("|%s=%v", p.Name(), v)
+		}
+	}
+	if seen[key] || len(fn.Blocks) == 0 {
+		return
+	}
+	seen[key] = true
+	live := liveBlocksUnder(fn, env)
+	for _, b := range fn.Blocks {
+		if !live[b] {
+			continue
+		}
+		for _, in := range b.Instrs {
+			if mc, ok := in.(*ssa.MakeClosure); ok {
+				c.collectTx(mc.Fn.(*ssa.Function), env, seen, out)
+				continue
+			}
+			call, ok := in.(ssa.CallInstruction)
+			if !ok {
+				continue
+			}
+			if k := c.beginKind(call); k != "" && !c.returnsStoreTx(fn) {
+				if fp := c.beginFlag(call); fp != nil {
+					if v, bound := env[fp]; bound {
+						if v {
+							k = "w"
+						} else {
+							k = "r"
+						}
+					}
+				}
+				*out = append(*out, txEvent{fn, call, k})
+			}
+			if c.isCommit(call) {
+				*out = append(*out, txEvent{fn, call, "commit"})
+			}
+			cc := call.Common()
+			if cc.IsInvoke() {
+				if !c.methodIsStoreIface(cc.Method) {
+					for _, g := range c.libImpls(cc.Method) {
+						if c.IsLib(g) {
+							c.collectTx(g, map[*ssa.Parameter]bool{}, seen, out)
+						}
+					}
+				}
+				continue
+			}
+			g := staticCallee(call)
+			if g == nil {
+				for _, t := range c.localClosureTargets(call) {
+					c.collectTx(t, env, seen, out)
+				}
+				continue
+			}
+			g = c.declared(g)
+			if !c.IsLib(g) {
+				continue
+			}
+			nenv := map[*ssa.Parameter]bool{}
+			for k, v := range env {
+				nenv[k] = v // closures created below keep seeing the outer parameters
+			}
+			for i, p := range g.Params {
+				if i >= len(cc.Args) {
+					continue
+				}
+				if bv, ok := constBool(cc.Args[i]); ok {
+					nenv[p] = bv
+				} else if ap, ok := cc.Args[i].(*ssa.Parameter); ok {
+					if v, bound := env[ap]; bound {
+						nenv[p] = v
+					}
+				}
+			}
+			c.collectTx(g, nenv, seen, out)
+		}
+	}
+}
+
 func ruleTX4(c *Ctx) []Ob {
 	o := newObs(c, "TX4")
 	for _, name := range readOps {
@@ -563,46 +685,70 @@ func ruleTX4(c *Ctx) []Ob {
 			o.add(UNDECIDED, "DB."+name, "-", "public read operation DB.%s not found", name)
 			continue
 		}
-		reach := c.reachFuncs(fn)
-		var commitAt string
-		for f := range reach {
-			allCalls(f, func(call ssa.CallInstruction) {
-				if c.isCommit(call) {
-					commitAt = c.fname(f)
-				}
-			})
+		var evs []txEvent
+		c.collectTx(fn, map[*ssa.Parameter]bool{}, map[string]bool{}, &evs)
+		commitAt := ""
+		for _, e := range evs {
+			if e.kind == "commit" {
+				commitAt = c.fname(e.fn)
+			}
 		}
 		nBegin := 0
-		var fs []*ssa.Function
-		for f := range reach {
-			fs = append(fs, f)
-		}
-		sort.Slice(fs, func(i, j int) bool { return c.fname(fs[i]) < c.fname(fs[j]) })
-		for _, f := range fs {
-			allCalls(f, func(call ssa.CallInstruction) {
-				k := c.beginKind(call)
-				if k == "" || c.returnsStoreTx(f) {
-					return
-				}
-				nBegin++
-				key := "DB." + name + "/" + c.fname(f) + "/Begin"
-				pos := relPath(c, call.Pos())
-				switch {
-				case k == "r":
-					o.add(OK, key, pos, "read-only transaction")
-				case commitAt == "":
-					o.add(OK, key, pos, "opened for update, but no Commit is reachable from DB.%s: every change is rolled back", name)
-				default:
-					o.add(VIOLATED, key, pos, "read operation DB.%s opens an update transaction and %s commits", name, commitAt)
-				}
-			})
+		for _, e := range evs {
+			if e.kind == "commit" {
+				continue
+			}
+			nBegin++
+			key := "DB." + name + "/" + c.fname(e.fn) + "/Begin"
+			pos := relPath(c, e.call.Pos())
+			switch {
+			case e.kind == "r":
+				o.add(OK, key, pos, "read-only transaction")
+			case commitAt == "":
+				o.add(OK, key, pos, "opened for update, but no Commit is reachable from DB.%s: every change is rolled back", name)
+			default:
+				o.add(VIOLATED, key, pos, "read operation DB.%s opens an update transaction and %s commits", name, commitAt)
+			}
 		}
 		if nBegin == 0 {
 			o.add(UNDECIDED, "DB."+name+"/Begin", relPath(c, fn.Pos()), "no transaction opener found on the paths of this read operation")
 		}
-		if c.eff(fn)&EffWrites != 0 && commitAt != "" {
-			o.add(VIOLATED, "DB."+name+"/effects", relPath(c, fn.Pos()), "read operation reaches store writes (%s) and a Commit", c.eff(fn)&EffWrites)
-		}
 	}
 	return o.list
+}
+
+// flagParamIndex: index of the bool parameter of g that is passed to Begin in g, or -1.
+func (c *Ctx) flagParamIndex(g *ssa.Function) int {
+	idx := -1
+	if g == nil || !c.IsLib(g) {
+		return -1
+	}
+	allCalls(g, func(call ssa.CallInstruction) {
+		if fp := c.beginFlag(call); fp != nil {
+			idx = paramIndex(g, fp)
+		}
+	})
+	return idx
+}
+
+// maxFlagFalse: like max, for a tx-scope helper whose flag is known false.
+func (t *txCounter) maxFlagFalse(g *ssa.Function) int {
+	if t.memoF == nil {
+		t.memoF = map[*ssa.Function]int{}
+		t.flagFalse = map[*ssa.Function]bool{}
+	}
+	if v, ok := t.memoF[g]; ok {
+		return v
+	}
+	t.flagFalse[g] = true
+	saved, had := t.memo[g]
+	delete(t.memo, g)
+	v := t.max(g)
+	delete(t.memo, g)
+	if had {
+		t.memo[g] = saved
+	}
+	delete(t.flagFalse, g)
+	t.memoF[g] = v
+	return v
 }
